@@ -87,6 +87,8 @@ def run(rep, tier, seed, replay):
     frag = P.model_cmd("F", [k for k, _, _, _ in jobs])
     # the postfix is a glob of its own: its compiled program may deviate from the documented language too
     fpost = dict(zip([k for k, _, _, _ in jobs], m.ask(["F " + (f["post"] if f["post"] != "none" else "-") for _, f, _, _ in jobs])))
+    # the hypothesis of partition_lang_all_partial (partOk) with F01 of the glob and of the postfix
+    fp = P.model_cmd("FP", [k for k, _, _, _ in jobs])
     res = h.ask(reqs)
     for (k, f, prefix, reproduced), line in zip(jobs, res):
         e = exprs[k]
@@ -121,7 +123,14 @@ def run(rep, tier, seed, replay):
                 inp["path"] = w
             tag = classify(e, f, P.impl[k], kind)
             enc = [t for fr in (frag[k], fpost[k]) if fr.startswith("out:") for t in fr[4:].split(",")]
-            if kind == "language" and tag != "K-PART-FLAG-ROOTED-TREE" and enc:
+            if kind == "language" and fp[k] == "in":
+                rep.violation("oracle", "partition_lang_all_partial applies (partOk, F01 of the glob and of the postfix) but %s" % text, inp, impl=pi[k][:300], fragment="in")
+                continue
+            if kind == "language" and tag != "K-PART-FLAG-ROOTED-TREE" and fp[k].startswith("out:"):
+                tags = fp[k][4:].split(",")
+                known = [t for t in tags if t in finding_ids]
+                tag = known[0] if known else ",".join(tags)
+            elif kind == "language" and tag != "K-PART-FLAG-ROOTED-TREE" and enc:
                 # the compiled program of the glob itself, or of the postfix, deviates from the documented language (C01's findings)
                 known = [t for t in enc if t in finding_ids]
                 tag = known[0] if known else ",".join(enc)
